@@ -44,6 +44,27 @@ func (g *gen) uniq(prefix string) string { g.n++; return fmt.Sprintf("%s%d", pre
 
 func (g *gen) chance(p float64) bool { return g.rng.Float64() < p }
 
+// promotes: does the struct named st have (directly or through its own embedded structs) a field named n
+func (g *gen) promotes(st, n string, depth int) bool {
+	if depth > 6 {
+		return false
+	}
+	for _, sd := range g.structs {
+		if sd.Name != st {
+			continue
+		}
+		for _, f := range sd.Fields {
+			if f.Name == n {
+				return true
+			}
+			if f.Embedded && g.promotes(f.Name, n, depth+1) {
+				return true
+			}
+		}
+	}
+	return false
+}
+
 // key types acceptable to encoding/json
 func (g *gen) keyType() *TE {
 	switch g.rng.Intn(6) {
@@ -379,6 +400,11 @@ func (g *gen) mkStruct(i int) *Decl {
 			dup := false
 			for _, f := range d.Fields {
 				if f.Name == n {
+					dup = true
+				}
+				// a name promoted from an embedded struct would be hidden by (or hide) the new
+				// field: encoding/json's dominance rule is outside the conflict-free case
+				if f.Embedded && g.promotes(f.Name, n, 0) {
 					dup = true
 				}
 			}
